@@ -45,7 +45,10 @@ ItemsNamed(items, n) == { i \in DOMAIN items : items[i].name = n }
 
 C13_Substituted(c, useTy, items) ==
     LET own == ItemsNamed(items, c.def) IN
-    \/ useTy = ExpPath(c) /\ own = {}                      \* used directly
+    (* used directly: the names coincide, or the external type takes parameters (a parameterised
+       native type never gets a wrapper); "through a transparent newtype named after the definition
+       when the names differ" is read as an obligation for the unparameterised case *)
+    \/ useTy = ExpPath(c) /\ own = {} /\ (c.def = c.ext.last \/ c.ext.params # << >>)
     \/ /\ c.def # c.ext.last                                \* through a transparent newtype
        /\ useTy = c.def
        /\ \E i \in own : items[i].shape = "tuple" /\ items[i].nf = 1 /\ items[i].f0 = ExpPath(c)
